@@ -239,11 +239,59 @@ class FakeSocketModule(types.ModuleType):
             s.kind = "listen"
             return s
         plan = self.env.dial_plan.pop(0) if self.env.dial_plan else "ok"
-        s.connect_outcome = {"ok": "ok", "inp": "inprogress"}.get(plan) or OSError(errno.ECONNREFUSED, "refused")
+        # ("fail": ECONNREFUSED; a suffix letter picks another errno an immediate connect() can fail with)
+        dial_errno = {"failU": errno.ENETUNREACH, "failH": errno.EHOSTUNREACH, "failA": errno.EADDRNOTAVAIL,
+                      "failT": errno.ETIMEDOUT, "failX": errno.EACCES}.get(plan, errno.ECONNREFUSED)
+        s.connect_outcome = {"ok": "ok", "inp": "inprogress"}.get(plan) or OSError(dial_errno, "connect failed")
         if plan == "inp":
             s.writable = False          # becomes writable when the scenario says how the connect ended
         self.env.created.append(s)
         return s
+
+
+class DeadlockError(BaseException):
+    """a thread blocks on a non-reentrant lock that it holds itself: it would wait for ever (not an Exception: the
+    library's handlers must not be able to "recover" from something that, in a real process, never returns)"""
+
+
+class CheckedLock:
+    """threading.Lock for the single-threaded simulation: mutual exclusion as usual, but a blocking acquire by the
+    thread that already holds the lock raises DeadlockError instead of hanging the harness"""
+
+    def __init__(self):
+        self._l = real_threading.Lock()
+        self._owner = None
+
+    def acquire(self, blocking=True, timeout=-1):
+        me = real_threading.get_ident()
+        if self._l.acquire(False):
+            self._owner = me
+            return True
+        if not blocking:
+            return False
+        if self._owner == me:
+            if timeout is not None and timeout >= 0:
+                return False            # a timed wait on one's own lock times out
+            raise DeadlockError("blocking acquire of a lock held by the same thread")
+        ok = self._l.acquire(True, timeout)
+        if ok:
+            self._owner = me
+        return ok
+
+    def release(self):
+        self._owner = None
+        self._l.release()
+
+    def locked(self):
+        return self._l.locked()
+
+    def __enter__(self):
+        self.acquire()
+        return self
+
+    def __exit__(self, *a):
+        self.release()
+        return False
 
 
 class FakeEvent:
@@ -313,6 +361,15 @@ class Env:
             m.os = fo
         self.saved[(helpers_mod, "random")] = helpers_mod.random
         helpers_mod.random = FakeRandom(self)
+        # the node's and the connections' locks: a thread that blocks on a lock it holds itself would wait for ever
+        for m in (node_mod, peer_mod):
+            lt = types.ModuleType("threading")
+            for k in dir(real_threading):
+                if not k.startswith("__"):
+                    setattr(lt, k, getattr(real_threading, k))
+            lt.Lock = CheckedLock
+            self.saved[(m, "threading")] = m.threading
+            m.threading = lt
         fake_threading = types.ModuleType("threading")
         fake_threading.Event = FakeEvent
         fake_threading.Lock = real_threading.Lock
